@@ -8,19 +8,32 @@ import common as C
 PROPERTIES = ["C03"]
 MANIFEST = {
     "C03": {
-        "technique": "Lean 4 proof (refinement of a node/free-list model of List and PoolList and a capacity/storage model of Array "
-                     "to plain sequences by induction over operation lists; sortedness and permutation of the modelled in-place quicksort "
-                     "for every input) + differential correspondence model vs real List.hpp/PoolList.hpp/Array.hpp",
-        "text": "Theorems over all operation histories of the Lean model (contents = reference sequence, returned iterator = inserted element / "
-                "successor of the removed one, size <= capacity and the growth rule of Array, List::sort = ascending permutation for every input "
-                "list).  The model is tied to the current headers on every run: identical op lines are executed on the real containers "
-                "(ASan/UBSan, poisoned allocations, white-box node ids, allocation counts) and on the compiled model, and an independent "
-                "Python reference (plain lists, sorted()) is evaluated on the implementation's output.",
-        "note": "Trusted: Lean kernel + the three standard axioms; hand translation of the three headers into the model (validated by the "
-                "correspondence run, not proved): List/PoolList are modelled as the chain of (node id, value) pairs + free list + block count, "
-                "not at the level of individual prev/next pointers; quicksort is modelled on positions of the chain (next = position+1) with a "
-                "function memory; element type int; allocation never fails.  Self-assignment, arguments aliasing the container "
-                "(a.append(a[0]), l.append(l)) and construction/destruction counting belong to C04 and are not generated here.",
+        "technique": "Lean 4 proof (refinement of three model layers to plain sequences by induction over operation lists: chain model of "
+                     "List/PoolList + capacity model of Array -> reference lists; pointer-level heap model of List insert/remove/clear/sort "
+                     "-> chain model; cell-level model of the Array loops -> capacity model; sortedness and permutation of the modelled "
+                     "in-place quicksort for every input) + differential correspondence of all three layers vs the real "
+                     "List.hpp/PoolList.hpp/Array.hpp",
+        "text": "Theorems over ALL operation histories of the Lean models: contents = reference sequence and every returned iterator/reference/"
+                "value = the reference's (refines, refines_returns; inserted element / successor of the removed one: insert_returns_inserted, "
+                "remove_returns_successor); List::sort (pivot = first value, three-pointer walk, value swaps, recursion with a proved fuel "
+                "bound) = ascending permutation for EVERY input list and every strict partial order (sort_total/sort_perm/sort_sorted/"
+                "sort_frame, lsort_int); node ids never handed out twice or lost (nodes_inv); the statement-by-statement heap model of "
+                "insert/remove/clear/sort with prev/next/value fields, sentinel, free list and 4-item blocks represents the chain model "
+                "after every history (ptr_refines, ptr_insert_returns, ptr_remove_returns, ptr_sort, ptr_iteration); size <= capacity, "
+                "growth rule and no reallocation within capacity (array_cap, reserve_policy, append_no_realloc); the cell-by-cell loops of "
+                "reserve/append/resize/remove/clear/copy never touch a cell outside the block or a raw cell and compute the list "
+                "functions of the model (raw_refines, raw_remove).  The models are tied to the current headers on every run: identical "
+                "op lines are executed on the real containers (ASan/UBSan at -O1 and a second unsanitized -O2 build, poisoned "
+                "allocations, white-box node ids, new[]/delete[] counts, forward/backward link walks) and on the compiled models "
+                "(chain model printed; heap model and cell model run in lockstep, any divergence marks the line), and an independent "
+                "Python reference (plain lists, sorted(), capacity contract) is evaluated on the implementation's output.",
+        "note": "Trusted: Lean kernel + the three standard axioms; the hand translation of the three headers into the models (validated by the "
+                "correspondence run, not proved).  Modelled rather than verified: element type int; List::swap, insert(pos, list), copy "
+                "construction and assignment exist only in the chain model (the lockstep heap replays them as the insert sequences the C++ "
+                "code performs; swap exchanges the heaps); PoolList shares the heap model of List (its relinking code is a copy); "
+                "allocation never fails; separate containers never alias.  Self-assignment, arguments aliasing the container "
+                "(a.append(a[0]), l.append(l)) and construction/destruction counting belong to C04 and are not generated here.  "
+                "No theorem is partial.",
         "design_ref": "DESIGN.md 3/C03",
     }
 }
@@ -447,6 +460,8 @@ def histories_for(ctx, pool_front):
     quick = ctx.tier == "quick"
     p_ops = [o for o in P_OPS if pool_front or not o.startswith(("pfront", "pback"))]
     hs = C.load_corpus(ctx.prop)
+    if not pool_front:
+        hs = [[l for l in h if not l.startswith(("pfront", "pback"))] for h in hs]
     ncorpus = len(hs)
     dl, dp, da = (4, 4, 3) if quick else (5, 5, 4)
     nl, np_, na = (60000, 30000, 100000) if quick else (0, 1000000, 2000000)
@@ -590,9 +605,11 @@ def build(ctx):
 def check(ctx):
     ctx.assumptions += [
         "element type int (trivially copyable); construction/destruction counting, self-assignment and arguments aliasing the container are C04's",
-        "List/PoolList model: chain of (node id, value) + free list + block count (node = 4*block+slot); individual prev/next pointers are not modelled "
-        "(the harness checks forward/backward walks and the null predecessor of the first item on every observation)",
-        "quicksort model addresses the nodes of the chain by position (next = position + 1)",
+        "chain model of List/PoolList: (node id, value) pairs in link order + free list + block count (node = 4*block+slot); the heap model "
+        "(prev/next/value per item, sentinel, free list through prev) is proved to represent it for insert/remove/clear/sort and is run in "
+        "lockstep by the driver; the harness checks forward/backward walks and the null predecessor of the first item on every observation",
+        "position-level quicksort (next = position + 1) is proved equal to the heap-level one (item addresses, next reads, pointer comparison)",
+        "Array: capacity model + cell-level model of the loops (proved related, run in lockstep); separate containers never alias",
         "allocation never fails",
     ]
     proof_ok = C.proof_stage(ctx, PROPS, [DRIVER], leanchecker=(ctx.tier == "thorough"))
